@@ -41,6 +41,9 @@ func Run(prop, tier, repo, verif string, lo engine.LoadOpts) int {
 		}
 	}()
 	f(r, p)
+	if tier == "thorough" && lo.Overlay == nil {
+		runMutants(r, prop, verif, repo)
+	}
 	return r.Finish(verif)
 }
 
